@@ -335,7 +335,7 @@ func DiffModel(w *h.World, f *Fix, m *MRepo, o DiffOpts) []h.Violation {
 						add("manifest-head", "manifest-head-wrong", "%s: HEAD by digest answered %s", n, hr)
 					}
 				}
-			} else if r.Status != 404 && !o.NoAbsence {
+			} else if r.Status != 404 && !o.NoAbsence && !m.bodyListedByPresentIndex(n) {
 				add("deleted-manifest-gone", "manifest-unexpected", "%s is not in the model (never pushed or deleted), GET by digest answered %s", n, r)
 			}
 		}
@@ -661,4 +661,23 @@ func closeViolation(err error) []h.Violation {
 		return []h.Violation{h.V("restart", "close-panics", "%v", err)}
 	}
 	return nil
+}
+
+// bodyListedByPresentIndex: the manifest is not present per the model (deleted by digest), but its body is still
+// stored and a present index lists it as a child. index.json has no record of such a delete, so whether GET by digest
+// knows the manifest depends on when the repository was last loaded from disk (see C06/C10): left open.
+func (r *MRepo) bodyListedByPresentIndex(name string) bool {
+	if _, ok := r.Cas[name]; !ok || r.fix == nil {
+		return false
+	}
+	for p := range r.Mans {
+		if it := r.fix.Items[p]; it != nil && p != name {
+			for _, c := range it.Children {
+				if c == name {
+					return true
+				}
+			}
+		}
+	}
+	return false
 }
